@@ -141,3 +141,35 @@ Print Assumptions C15_model_list_prediction_is_diagonal.
 Theorem C15_correlated_predict_reads_the_last_update : Gen_extra2.gen_correlated_predict_reads_pending_store = false.
 Proof. reflexivity. Qed.
 Print Assumptions C15_correlated_predict_reads_the_last_update.
+
+(* the regenerated train-and-freeze helpers (Gen_extra3.v) as wrapper operation sequences: the multi-output helper IS the
+   modelled factory; the model-list helper returns a model that is up to date and holds, per objective, exactly the drawn
+   initial observations of that objective — never the hyper-parameter training data *)
+From VOPy Require ExtraRefine3.
+From VOPyGen Require Gen_extra3.
+Theorem C15_regenerated_helpers_return_up_to_date_models : forall (sample : Type) m,
+  (forall (train initial : list sample) cnt, length initial = cnt ->
+      grun sample (ginit sample m) (Gen_extra3.gen_factory_ops sample train initial cnt) = factory sample m train initial) /\
+  (forall (train : list (list sample)) (initial : list (nat * sample)) cnt k, k < m ->
+      let final := grun sample (ginit sample m) (Gen_extra3.gen_factory_list_ops sample train initial cnt) in
+      nth k (held sample final) [] = (if Nat.ltb 0 cnt then map snd (filter (fun ks => Nat.eqb (fst ks) k) initial) else []) /\
+      cond sample final = held sample final).
+Proof.
+  intros sample m. split.
+  - exact (ExtraRefine3.gen_factory_is_factory sample m).
+  - exact (ExtraRefine3.gen_factory_list_up_to_date sample m).
+Qed.
+Print Assumptions C15_regenerated_helpers_return_up_to_date_models.
+
+(* reported hyper-parameters of the model list: entry k is read from the k-th single-output model's kernel *)
+Theorem C15_model_list_hyperparameters_one_entry_per_objective : forall (A B : Type) (kernels : list (A * B)),
+  length (fst (Gen_extra3.gen_modellist_hyperparameters A B kernels)) = length kernels /\
+  length (snd (Gen_extra3.gen_modellist_hyperparameters A B kernels)) = length kernels /\
+  forall k d, k < length kernels ->
+    nth k (fst (Gen_extra3.gen_modellist_hyperparameters A B kernels)) (fst d) = fst (nth k kernels d) /\
+    nth k (snd (Gen_extra3.gen_modellist_hyperparameters A B kernels)) (snd d) = snd (nth k kernels d).
+Proof.
+  intros A B kernels. unfold Gen_extra3.gen_modellist_hyperparameters. cbn [fst snd]. rewrite !map_length.
+  split; [reflexivity|]. split; [reflexivity|]. intros k d Hk. split; apply map_nth.
+Qed.
+Print Assumptions C15_model_list_hyperparameters_one_entry_per_objective.
